@@ -134,6 +134,20 @@ def gen_cases(tier: str, seed: int) -> list[dict[str, Any]]:
                     dict()][(i // 4) % 4])
         cases.append({'cfg': cfg, 'hist_name': h, 'history': hist,
                       'seed': seed * 1000 + i})
+    # ill-conditioned factors (large-magnitude activations): which collectives
+    # are issued, with which shapes, must not depend on the data
+    for i, (W, k) in enumerate([(2, 2), (4, 2), (4, 4), (2, 1)]):
+        for method in ('inverse', 'eigen'):
+            cases.append({
+                'cfg': dict(W=W, k=k, method=method, prediv=False,
+                            bucket_cap_mb=[0.0, 25.0][i % 2], symmetry=True,
+                            in_hook=True, colocate=(i % 2 == 0), F=1,
+                            I=1 + i % 2, accum=1, in_scale=30.0,
+                            batch=16, damping=0.003,
+                            model=['wide', 'wide', 'conv'][i % 3]),
+                'hist_name': 'ckpt', 'history': HISTORIES['ckpt'],
+                'seed': seed + 50 + i,
+            })
     # marathons: many iterations on worlds whose gradient-worker columns own
     # different numbers of layers (per-rank operation counts drift apart)
     longs = [dict(W=4, k=2, method='eigen', prediv=True, bucket_cap_mb=25.0,
